@@ -355,6 +355,9 @@ class World:
         b = self.builtins.get("new:" + cref.qual)
         if b is not None:
             return b.fn(ex, list(args), kwargs)
+        c = self.contracts.get("new:" + cref.qual)
+        if c is not None:
+            return c.apply(ex, list(args), kwargs)
         o = Obj(cref.qual)
         hook = self.config.get("on_new")
         if hook:
